@@ -884,6 +884,15 @@ TASKS = (
     + [_mk(FnTask("C36", "C36.native", standin, "bounded", standin_replay), standin_key)]
 )
 
+def _feasible(sc):
+    from pyvc.smt import check_sat
+    return check_sat(list(sc.pc), 20000, 0, use_cvc5=False).status != "unsat"
+
+
+for _t in TASKS:
+    if isinstance(_t, EmitTask) and _t.path_filter is None:
+        _t.path_filter = _feasible
+
 META = {
     "level": "other",
     "explanation": "Proof of mechanism: emission contracts on the real visit_Block / visit_Include / visit_For / visit_Template (symbolic "
